@@ -42,6 +42,14 @@ CHECKS = {
         note=_STATIC_NOTE + " Not decided: that every XSD-valid lexical form parses to the right components and prints back (value-level).",
         technique="static analysis: CFG must-pass-through, abstract numeric-kind inference, table/arity extraction, regex AST inspection, spec-table equality",
     ),
+    "C05": dict(
+        text="Static discharge of table-agreement and discipline clauses: registry coverage of every datatype's Python type, equality of the "
+        "documented priority list with the sort table, strict-test coverage, per-converter may-raise inclusion in {ConverterError} (so the "
+        "priority fall-through cannot be aborted), whitespace normalisation before every lexical sink (interprocedural raw-text taint).",
+        design_ref="DESIGN.md section 4 C05",
+        note=_STATIC_NOTE + " Not decided: XSD validity of printed spellings and value-level acceptance of every lexical form.",
+        technique="static analysis: vocabulary/table extraction with doc cross-check, may-raise fixpoint per converter, def-use taint to lexical sinks",
+    ),
 }
 
 NOT_APPLICABLE = [
